@@ -181,7 +181,7 @@ def tla_chans(chs):
 
 def tlc_strict(cfg, trace_path, wd, timeout=600):
     """Strict pass: the recorded trace must be a behaviour of Renet.tla (same channel configuration)."""
-    key = sha(json.dumps({k: cfg[k] for k in ("sc", "cs", "budget")}, sort_keys=True))
+    key = sha(json.dumps({k: cfg.get(k, 0) for k in ("sc", "cs", "budget", "seqbase", "midbase")}, sort_keys=True))
     mod = "SC_" + key
     d = os.path.join(wd, "strict")
     os.makedirs(d, exist_ok=True)
@@ -189,7 +189,7 @@ def tlc_strict(cfg, trace_path, wd, timeout=600):
         f.write("---- MODULE %s ----\nEXTENDS TraceRenetStrict\nSC_ChSC == %s\nSC_ChCS == %s\n====\n" %
                 (mod, tla_chans(cfg["sc"]), tla_chans(cfg["cs"])))
     with open(os.path.join(d, mod + ".cfg"), "w") as f:
-        f.write("SPECIFICATION Spec\nCONSTANTS\n  ChSC <- SC_ChSC\n  ChCS <- SC_ChCS\n  Budget = %d\nINVARIANT Done\nPOSTCONDITION Consumed\nCHECK_DEADLOCK FALSE\n" % cfg["budget"])
+        f.write("SPECIFICATION Spec\nCONSTANTS\n  ChSC <- SC_ChSC\n  ChCS <- SC_ChCS\n  Budget = %d\n  SeqBase = %d\n  MidBase = %d\nINVARIANT Done\nPOSTCONDITION Consumed\nCHECK_DEADLOCK FALSE\n" % (cfg["budget"], cfg.get("seqbase", 0), cfg.get("midbase", 0)))
     meta = os.path.join(d, "meta-" + os.path.basename(trace_path))
     out = os.path.join(d, "strict-" + os.path.basename(trace_path) + ".out")
     cmd = ["timeout", str(timeout), "java", "-XX:+UseParallelGC", "-DTLA-Library=" + SPEC,
